@@ -86,6 +86,40 @@ def _operand_rules(S):
     return _closure(S, out)
 
 
+def _operand_indirection(S):
+    """is some range / control operand of S reached through a generic instantiation or a socket?"""
+    names = _operand_rules(S)
+    if any(n.startswith("$") for n in names):
+        return True
+    if any(r["params"] for r in S if r["name"] in names):
+        return True
+    found = [False]
+
+    def has_args(o):
+        if isinstance(o, dict):
+            if o.get("args"):
+                return True
+            return any(has_args(v) for k, v in o.items() if k not in ("v", "cp"))
+        if isinstance(o, list):
+            return any(has_args(v) for v in o)
+        return False
+
+    def walk(o):
+        if isinstance(o, dict):
+            if o.get("k") == "range" and "lo" in o and (has_args(o["lo"]) or has_args(o["hi"])):
+                found[0] = True
+            if o.get("k") == "ctl" and "arg" in o and (has_args(o["t"]) or has_args(o["arg"])):
+                found[0] = True
+            for k, v in o.items():
+                if k not in ("v", "cp"):
+                    walk(v)
+        elif isinstance(o, list):
+            for v in o:
+                walk(v)
+    walk(S)
+    return found[0]
+
+
 def _forwards_param(S, n):
     """does a rule named n pass one of its generic parameters on as a generic argument?"""
     for r in R.rules_named(S, n):
@@ -147,7 +181,7 @@ def classify(fmt, st, before, after):
         x = x[stp - 1] if isinstance(stp, int) else x[stp]
         if stp in ("lo", "hi", "arg") or (stp == "t" and isinstance(parent, dict) and parent.get("k") == "ctl"):
             in_operand = True
-    if in_operand or any(site_names & _operand_rules(S) for S in both) \
+    if ((in_operand or any(site_names & _operand_rules(S) for S in both)) and any(_operand_indirection(S) for S in both)) \
             or (st["kind"] == "unfold" and node is not None and node.get("args") and any(_param_in_operand(S, node["n"]) for S in both)):
         return "C08-operand-through-generic-or-socket"
     if "key" in path:
